@@ -143,6 +143,14 @@ def structure_recipes(seed):
     recF["via"] = "memory"
     recF["noswitch"] = True
     out.append(recF)
+    # G: a trigonal group on a primitive hexagonal lattice (P3_1): trigonal, but without rhombohedral/hexagonal choices
+    rowG = [r for r in rows if r["number"] == 144][0]
+    recG = None
+    while recG is None:
+        recG = xtal.gen_molecular(rng, rowG, nmols=1, sizes=(3,), n=48)
+    recG["via"] = "memory"
+    recG["noswitch"] = True
+    out.append(recG)
     return out
 
 
@@ -298,7 +306,7 @@ def drive(job):
     nf, u = 3 * rec["n"], rec["u"]
     objs = {1: make_object(rec)}
     st0, _, off0 = state_of(objs[1], nf, u)
-    t = {"init": st0, "loaded": rec["via"] == "cif", "events": [],
+    t = {"init": st0, "loaded": rec["via"] == "cif", "number": int(rec["number"]), "events": [],
          "meta": {"recipe": job, "source": job.get("src", "tlc-word"), "nontrivial": any(":s:" in w for w in word),
                   "impl_call": "%s structure (%d %s): %s" % (rec["via"], rec["number"], rec["choice"], ",".join(word))}}
     for tok in word:
@@ -315,6 +323,18 @@ def drive(job):
             continue
         i = int(parts[0])
         cr = objs[i]
+        if parts[1] == "x":
+            # a request the object must refuse (no H/R choices for this group, or a misspelt choice); the caller carries on
+            _, aux_before, _ = state_of(cr, nf, u)
+            ev = {"ev": "refused", "obj": i, "ch": parts[2], "exc": "", "off": False, "state": st0, "aux": "", "aux_before": aux_before}
+            try:
+                cr.choose_trigonal_lattice(parts[2])
+            except Exception as e:
+                ev["exc"] = type(e).__name__
+            s, aux, off = state_of(cr, nf, u)
+            ev.update(state=s, aux=aux, off=off)
+            t["events"].append(ev)
+            continue
         if parts[1] == "s":
             ev = {"ev": "switch", "obj": i, "ch": parts[2], "exc": "", "off": False, "state": st0}
             try:
@@ -388,9 +408,14 @@ def run(ctx, explain=False):
         if ctx.quick and k >= 3:
             sel = [w for j, w in enumerate(words) if (j + k) % 3 == 0]
         if rec.get("noswitch"):
-            sel = sorted({tuple(x for x in w if ":s:" not in x) for w in sel} - {()})
-        for w in sel:
-            jobs.append({"rec": rec, "word": list(w)})
+            # no setting switch applies: the request is one the object must refuse
+            sel = sorted({tuple(x.replace(":s:", ":x:") for x in w) for w in sel} - {()})
+        for j, w in enumerate(sel):
+            w = list(w)
+            if not rec.get("noswitch") and j % 3 == 0:
+                # a misspelt request somewhere before the end of the history
+                w.insert((j // 3) % len(w), "1:x:" + ("r", "hex", "h", "")[(j // 3) % 4])
+            jobs.append({"rec": rec, "word": w})
     # longer random histories
     rng = ctx.rng
     alphabet1 = ["1:q:" + q for q in QUERIES] + ["1:s:H", "1:s:R"]
@@ -408,13 +433,15 @@ def run(ctx, explain=False):
                     tok = "2" + tok[1:]
                 word.append(tok)
         if rec.get("noswitch"):
-            word = [x for x in word if ":s:" not in x]
+            word = [x.replace(":s:", ":x:") for x in word]
+        elif word and rng.random() < 0.5:
+            word.insert(rng.randrange(len(word)), "1:x:" + rng.choice(["r", "hex", "h", "P"]))
         jobs.append({"rec": rec, "word": word, "src": "random"})
     traces = pool_map(drive, jobs, chunksize=8)
     ctx.notes["replayed_histories"] = len(traces)
     ctx.validate("trace/Trace_CrystalObject.tla", traces, batch=4000, timeout=2400)
-    ctx.rule = ("histories over %d read-only queries (fixed arguments), choose_trigonal_lattice('H'/'R') and deepcopy on six structures "
-                "(148 H molecular built in memory, 167 H loaded from CIF, 146 R loaded from SHELX, 148 H with a partially occupied site just off the 3-fold axis, 148 H with a diatomic across an inversion centre listed before a general molecule, P1 with whole molecules partly outside the cell): every history of length <= 2 over the full "
+    ctx.rule = ("histories over %d read-only queries (fixed arguments), choose_trigonal_lattice('H'/'R') and deepcopy and refused requests (misspelt choices, groups without the two settings) on seven structures "
+                "(148 H molecular built in memory, 167 H loaded from CIF, 146 R loaded from SHELX, 148 H with a partially occupied site just off the 3-fold axis, 148 H with a diatomic across an inversion centre listed before a general molecule, P1 with whole molecules partly outside the cell, P3_1 (trigonal, no second setting)): every history of length <= 2 over the full "
                 "alphabet and <= 3 over the %d-query core enumerated by TLC from MC_CrystalObject (thorough: <= 3 full, <= 4 core), plus seeded "
                 "random histories of length 5-12; non-trivial = the history contains a setting switch" % (len(QUERIES), len(CORE)))
     ctx.exhaustive = True
